@@ -30,7 +30,10 @@ NSucc(v) ==
   \cup {X("ChangeScheme", [x EXCEPT !.schf = m]) : m \in {0, 1, 2, 3} \ {x.schf}}
   \cup (IF ~B.hasuser THEN {X("AddUserinfo", [x EXCEPT !.ui = m]) : m \in {0, 1, 2} \ {x.ui}} ELSE {})
   \cup (IF Len(x.sub) < 2 THEN {X("AddIrrelevantLabel", [x EXCEPT !.sub = <<l>> \o x.sub]) : l \in SubLabels} ELSE {})
-  \cup (IF IdnaRow(B.host[1]) = 0 /\ (\A i \in 1..Len(x.sub) : x.sub[i] \notin LangLabels) THEN {X("AmpDashPrefix", [x EXCEPT !.ampdash = ~x.ampdash])} ELSE {})
+  \cup (IF ~x.ampouter /\ IdnaRow(B.host[1]) = 0 /\ (\A i \in 1..Len(x.sub) : x.sub[i] \notin LangLabels) THEN {X("AmpDashPrefix", [x EXCEPT !.ampdash = ~x.ampdash])} ELSE {})
+  \cup (IF x.sub = <<>> /\ ~x.ampdash /\ ~x.ampouter THEN {X("AmpDashIrrelevantLabel", [x EXCEPT !.sub = <<l>>, !.ampouter = TRUE]) : l \in {WWW, <<109>>}} ELSE {})
+  \* both default ports are irrelevant whatever the scheme (by 'scheme or absence of scheme' + 'explicit default port')
+  \cup (IF ~FpMode /\ B.port = <<>> /\ x.port = <<>> /\ ~u.dp THEN {X("ExplicitDefaultPort", [x EXCEPT !.port = p]) : p \in {<<56,48>>, <<52,52,51>>}} ELSE {})
   \cup (IF u.segs # <<>> THEN {X("ToggleTrailingSlash", [x EXCEPT !.tsx = ~x.tsx])} ELSE {})
   \cup (IF x.idx = <<>> THEN {X("AppendIndex", [x EXCEPT !.idx = p]) : p \in ToSet(ND.index_pages)} ELSE {})
   \cup (IF ~B.hasfrag /\ ~u.ef /\ x.pf = <<>> THEN {X("AddPlainFragment", [x EXCEPT !.pf = f]) : f \in PlainFrags} ELSE {})
@@ -46,7 +49,7 @@ NSucc(v) ==
               ELSE {})
         \cup (IF x.sub = <<>> /\ ~x.ampdash /\ Len(B.host) >= 2 THEN {X("AddLangLabel", [x EXCEPT !.sub = <<l>>]) : l \in LangLabels} ELSE {})
         ELSE {})
-NRewriteKinds == RewriteKinds \cup {"ChangeScheme", "AddUserinfo", "AddIrrelevantLabel", "AmpDashPrefix", "ToggleTrailingSlash",
+NRewriteKinds == RewriteKinds \cup {"AmpDashIrrelevantLabel", "ExplicitDefaultPort", "ChangeScheme", "AddUserinfo", "AddIrrelevantLabel", "AmpDashPrefix", "ToggleTrailingSlash",
                                     "AppendIndex", "AddPlainFragment", "InsertTracking", "PermuteQuery", "AmpEntity",
                                     "SetPort", "FlipCase", "AddLangLabel", "SwapSuffix"}
 RECURSIVE NReach(_, _)
